@@ -273,15 +273,15 @@ Section Rewrite.
         | Map kvs =>
             do here <- match find_field "namespace" kvs, find_field "kind" kvs with
                        | Some ns, Some k =>
-                           if negb (is_string_scalar k) then Panic
-                           else if String.eqb (node_value k) "ServiceAccount" then
-                                  (if is_string_scalar ns then Ok [node_value ns] else Err)
-                                else Ok []
+                           (* a kind that is not a string is simply "not a ServiceAccount" (fix bd5a4cf) *)
+                           if is_string_scalar k && String.eqb (node_value k) "ServiceAccount" then
+                             (if is_string_scalar ns then Ok [node_value ns] else Err)
+                           else Ok []
                        | _, _ => Ok []
                        end;
             do rest <- rb_subject_namespaces t;
             Ok (here ++ rest)%list
-        | _ => Panic
+        | _ => Err   (* a subject that is not a mapping: an error since fix bd5a4cf (it used to panic) *)
         end
     end.
   Definition rolebinding_namespaces (n : node) : res (list string) :=
